@@ -18,7 +18,7 @@ from .. import expr_cls as X
 from .. import expr_terms as T
 from .. import tlc, trace
 from ..core import Machinery
-from ..expr_pool import TRACE_CFG, action_totals
+from ..expr_pool import TRACE_CFG, action_totals, run_tlc
 
 LEVEL = "model_checking"
 META = {
@@ -91,10 +91,10 @@ def run(chk, replay=None):
     # 1. the laws, exhaustively ---------------------------------------------------------------------------
     leafs = ("x", "y", "z") if tier == "thorough" else ("x", "y")
     with ThreadPoolExecutor(max_workers=4) as ex:
-        f_main = ex.submit(tlc.run, "ExprOps_MC", X.class_cfg(sigs, leafs=leafs, max_ops=1), workers=3, fast_start=False, timeout=1700)
-        f_cov = ex.submit(tlc.run, "ExprOps_MC", X.class_cfg(sigs, init="ClassInitD1", leafs=("x", "y"), full_quantification=True), workers=1, coverage=True, timeout=600)
-        f_dev = ex.submit(tlc.run, "ExprOps_MC", X.class_cfg(sigs, dev="DevDeepAstuple", leafs=("x", "y"), outer=["A21e"], inner=["B10e"]), workers=1, timeout=600)
-        f_two = ex.submit(tlc.run, "ExprOps_MC", X.class_cfg(sigs, init="ClassInitD1", leafs=("x", "y"), max_ops=2), workers=1, timeout=1700) if tier == "thorough" else None
+        f_main = ex.submit(run_tlc, "ExprOps_MC", X.class_cfg(sigs, leafs=leafs, max_ops=1), workers=3, fast_start=False, timeout=1700)
+        f_cov = ex.submit(run_tlc, "ExprOps_MC", X.class_cfg(sigs, init="ClassInitD1", leafs=("x", "y"), full_quantification=True), workers=1, coverage=True, timeout=600)
+        f_dev = ex.submit(run_tlc, "ExprOps_MC", X.class_cfg(sigs, dev="DevDeepAstuple", leafs=("x", "y"), outer=["A21e"], inner=["B10e"]), workers=1, timeout=600)
+        f_two = ex.submit(run_tlc, "ExprOps_MC", X.class_cfg(sigs, init="ClassInitD1", leafs=("x", "y"), max_ops=2), workers=1, timeout=1700) if tier == "thorough" else None
         res, cov, dev = f_main.result(), f_cov.result(), f_dev.result()
         two = f_two.result() if f_two else None
     chk.add_tlc("laws_exhaustive", res)
